@@ -26,6 +26,17 @@ def resolve_const(ck: Checker, fn: Func, e: ast.expr) -> Optional[str]:
             v = ck.prog.class_const(c, e.attr)
             if v is not None:
                 return resolve_const(ck, fn, v)
+    if isinstance(e, ast.Name) and not fn.has_param(e.id):
+        # a local bound once to a constant expression (e.g. `relpath_key = self.PARAM_RELPATH`)
+        owner = fn
+        while owner is not None:
+            defs = [a for a in walk_own(owner.node) if isinstance(a, (ast.Assign, ast.AnnAssign)) and a.value is not None
+                    and any(isinstance(t, ast.Name) and t.id == e.id for t in (a.targets if isinstance(a, ast.Assign) else [a.target]))]
+            if len(defs) == 1 and not (isinstance(defs[0].value, ast.Name) and defs[0].value.id == e.id):
+                return resolve_const(ck, owner, defs[0].value)
+            if defs:
+                return None
+            owner = owner.parent
     if isinstance(e, ast.Name):
         # a module-level constant (not shadowed by a parameter / local of fn)
         v = fn.module.consts.get(e.id)
@@ -111,7 +122,8 @@ def check_from_list_rows(ck: Checker, rule: str) -> None:
     body_ids = {n.id for n in g.nodes.values() if h.id in n.loops}
     for n, c in adds:
         starts = [d for lab, d in h.succ if lab == "T"]
-        r = g.reach(starts, skip_node=lambda x: x.id == n.id, skip_edge=lambda a, l, b: l == "exc")
+        aids_ = {a_.id for a_, _c in adds}
+        r = g.reach(starts, skip_node=lambda x: x.id in aids_, skip_edge=lambda a, l, b: l == "exc")
         ck.require(h.id not in r, rule, fl, n, "every list entry produces a tree row", "a list entry can be skipped without producing a tree row", construct=f"{n.text()} / NODROP")
         # no loop-carried state flows into the row
         bad: List[str] = []
